@@ -93,12 +93,12 @@ def run(pid, tier, args):
                         what = "a deeply nested input, with and without the Trace option" if key[0] == "deep" else "calls without options before and after a call with AllowTrailing(true) on the same parser"
                         v.violation("%s (#%d): entry points disagree: %s" % (what, key[2], json.dumps(outs)[:500]), {"property": pid, "kind": "api-" + key[0], "calls": eps})
                     continue
-                if key[0] == "textcfg":
+                if key[0] in ("textcfg", "textdef"):
                     # static parser over a configured text/scanner lexer: relational checks only
                     outs = {ep: eps[ep] for ep in PARSE_EPS if ep in eps}
-                    louts = {ep: eps[ep] for ep in LEX_EPS if ep in eps}
+                    louts = {ep: eps[ep] for ep in LEX_EPS + ["pkg.Lex", "pkg.LexString", "pkg.LexBytes"] if ep in eps}
                     if len(set(outs.values())) > 1 or len(set(louts.values())) > 1:
-                        v.violation("parser over NewTextScannerLexer(configure), input #%d: entry points disagree: %s" % (key[2], json.dumps({**outs, **louts})[:500]),
+                        v.violation("parser over a text/scanner lexer (%s), input #%d: entry points disagree: %s" % (key[0], key[2], json.dumps({**outs, **louts})[:500]),
                                     {"property": pid, "kind": "api-textcfg", "calls": eps})
                     continue
                 g = byid[key[0]]
